@@ -395,6 +395,8 @@ type Universe struct {
 	sortOwner map[string]int // symbol (sort name, ctor, selector) -> index into sortDecls
 	// axioms attached to function symbols: emitted when the symbol is used
 	axioms map[string][]string
+	// abstractStrings: rewrite every query with opaque strings (strabs_coord.go; root contract flag `opaque_strings`)
+	abstractStrings bool
 }
 
 func NewUniverse() *Universe {
@@ -657,6 +659,9 @@ func (u *Universe) Query(assumes []Term, goal Term, getValues []Term) string {
 			b.WriteByte(' ')
 		}
 		b.WriteString("))\n")
+	}
+	if u.abstractStrings {
+		return abstractStrings(b.String())
 	}
 	return b.String()
 }
